@@ -194,7 +194,7 @@ def run(ctx):
     S = sig()
     uni = list(build.expr_universe("cartesian", S, doms, depth, width))
     if ctx.quick:
-        uni = [r for r in uni if len(r[2]) <= 2] + [r for r in uni if len(r[2]) == 3][::4]
+        pass  # complete at this depth in the quick tier
     ctx.bounds.update(depth=depth, width=width, shapes=SHAPES, structural_max_width=4 if ctx.quick else 6)
     ctx.note("universe", "%d diagrams" % len(uni))
     ctx.rule = ("every cartesian diagram up to the bound called on symbolic inputs vs the wire machine; "
